@@ -418,6 +418,12 @@ unsafe fn dispose_general_node<T: RcObject>(
             let next_ref = next_ptr.deref();
             let link_epoch = next_ptr.high_tag() as u32;
 
+            // Disposing the previous edges may have taken long enough for this thread to
+            // re-announce its epoch several times (see above), so the global epoch may be far
+            // ahead of `curr_epoch`. Compare the stamps in a window around the current epoch:
+            // a stale window would misread a fresh stamp on `next` as the oldest one.
+            let modu: Modular<EPOCH_WIDTH> = Modular::new(global_epoch() as isize + 1);
+
             // Decrement next node's strong count and update its epoch.
             let next_cnt = loop {
                 let cnt_curr = State::from_raw(next_ref.state.load(Ordering::SeqCst));
